@@ -278,7 +278,7 @@ def run(rep, tier, seed):
         refuted = {cl: "" for cl in CLAUSES}
 
     # 3. spec -> code: behaviours of the emission instance and the static cases on real assemblies
-    for fam, cfg, cap in (("replay", "AxialExpansion_emit%s.cfg" % sfx, 60000 if thorough else 5000),
+    for fam, cfg, cap in (("replay", "AxialExpansion_emit%s.cfg" % sfx, 2000 if _SELFTEST else 60000 if thorough else 5000),
                           ("cases", "AxialExpansion_cases.cfg", None)):
         eres, cat, cases = emit(cfg)
         rep.add_tlc("behaviours:" + cfg, eres)
@@ -337,7 +337,7 @@ def run(rep, tier, seed):
                     raise tlc.MachineryError("TLC refutes %s, the real code conforms to the model, yet the measurement does not show it: %s" % (cl, m))
 
     # 4. code -> spec: seeded random histories (dyadic factors: the real arithmetic is exact) validated by TLC
-    ntr = 300 if thorough else 60
+    ntr = 25 if _SELFTEST else 300 if thorough else 60
     _, cat, _ = emit("AxialExpansion_cases.cfg")
     traces = trace_driver(Adapter(cat["CT"], cat["BT"]), ntr, 6, seed)
     bad, stats = tracecheck.validate("AxialExpansion_trace", "AxialExpansion_trace.cfg", MODDIR, traces, timeout=3000)
